@@ -66,23 +66,26 @@ type Case struct {
 	Steps  []Step          `json:"steps"`
 }
 
-// Groups is an object cut into the field groups of the model.
+// Groups is a decoded object cut into the field groups of the model. Labels/Annotations/Spec/Status are
+// DeepEqual-faithful renderings of the Go values (nil and empty differ); AnnotationsSem/SpecSem are the renderings
+// under which apiequality.Semantic.DeepEqual — the code's semanticEqual — compares (the model's Sem).
 type Groups struct {
-	Labels      string `json:"labels"`
-	Annotations string `json:"annotations"`
-	Generation  int64  `json:"generation"`
-	Spec        string `json:"spec"`
-	Status      string `json:"status"`
+	Labels         string `json:"labels"`
+	Annotations    string `json:"annotations"`
+	AnnotationsSem string `json:"annotationsSem"`
+	Generation     int64  `json:"generation"`
+	Spec           string `json:"spec"`
+	SpecSem        string `json:"specSem"`
+	Status         string `json:"status"`
 }
 
 func (g Groups) hex() Groups {
-	return Groups{rig.Hex(g.Labels), rig.Hex(g.Annotations), g.Generation, rig.Hex(g.Spec), rig.Hex(g.Status)}
+	return Groups{rig.Hex(g.Labels), rig.Hex(g.Annotations), rig.Hex(g.AnnotationsSem), g.Generation, rig.Hex(g.Spec), rig.Hex(g.SpecSem), rig.Hex(g.Status)}
 }
 func (g Groups) unhex() Groups {
-	return Groups{rig.UnHex(g.Labels), rig.UnHex(g.Annotations), g.Generation, rig.UnHex(g.Spec), rig.UnHex(g.Status)}
+	return Groups{rig.UnHex(g.Labels), rig.UnHex(g.Annotations), rig.UnHex(g.AnnotationsSem), g.Generation, rig.UnHex(g.Spec), rig.UnHex(g.SpecSem), rig.UnHex(g.Status)}
 }
 
-// deepGroups: DeepEqual-faithful rendering of the decoded Go value.
 func deepGroups(obj runtime.Object) Groups {
 	acc, err := meta.Accessor(obj)
 	if err != nil {
@@ -90,25 +93,78 @@ func deepGroups(obj runtime.Object) Groups {
 	}
 	v := reflect.ValueOf(obj).Elem()
 	return Groups{
-		Labels:      deepCanon(reflect.ValueOf(acc.GetLabels())),
-		Annotations: deepCanon(reflect.ValueOf(acc.GetAnnotations())),
-		Generation:  acc.GetGeneration(),
-		Spec:        deepCanon(v.FieldByName("Spec")),
-		Status:      deepCanon(v.FieldByName("Status")),
+		Labels:         deepCanon(reflect.ValueOf(acc.GetLabels())),
+		Annotations:    deepCanon(reflect.ValueOf(acc.GetAnnotations())),
+		AnnotationsSem: semCanon(reflect.ValueOf(acc.GetAnnotations())),
+		Generation:     acc.GetGeneration(),
+		Spec:           deepCanon(v.FieldByName("Spec")),
+		SpecSem:        semCanon(v.FieldByName("Spec")),
+		Status:         deepCanon(v.FieldByName("Status")),
 	}
 }
 
-// apiGroups: the object as the API renders it (JSON with omitempty), cut into the same groups.
-func apiGroups(obj runtime.Object) Groups {
+// ViewG is an object as the API shows it, cut into the judge's field groups.
+type ViewG struct {
+	Labels      string `json:"labels"`
+	Annotations string `json:"annotations"`
+	Generation  int64  `json:"generation"`
+	Spec        string `json:"spec"`
+	Status      string `json:"status"`
+}
+
+func (g ViewG) hex() ViewG {
+	return ViewG{rig.Hex(g.Labels), rig.Hex(g.Annotations), g.Generation, rig.Hex(g.Spec), rig.Hex(g.Status)}
+}
+
+// apiGroups: the judge's view — every group in its semantic rendering (an empty map/list/byte string reads as a
+// missing one; everything else exact). For spec and annotations this is the very rendering handed to the model
+// as Sem. jsonGroups (the literal JSON documents) is kept beside it to report where the two notions of "reads
+// the same" would part (a list/map member without omitempty).
+func apiGroups(obj runtime.Object) ViewG {
+	acc, err := meta.Accessor(obj)
+	if err != nil {
+		return ViewG{}
+	}
+	v := reflect.ValueOf(obj).Elem()
+	return ViewG{
+		Labels:      semCanon(reflect.ValueOf(acc.GetLabels())),
+		Annotations: semCanon(reflect.ValueOf(acc.GetAnnotations())),
+		Generation:  acc.GetGeneration(),
+		Spec:        semCanon(v.FieldByName("Spec")),
+		Status:      semCanon(v.FieldByName("Status")),
+	}
+}
+
+// jsonGroups: the object as the JSON API prints it (omitempty), cut into the same groups.
+func jsonGroups(obj runtime.Object) ViewG {
 	b, err := json.Marshal(obj)
 	if err != nil {
-		return Groups{Spec: "marshal error " + err.Error()}
+		return ViewG{Spec: "marshal error " + err.Error()}
 	}
 	m := toMap(b)
 	md, _ := m["metadata"].(map[string]interface{})
 	acc, _ := meta.Accessor(obj)
-	return Groups{Labels: canonJSON(md["labels"]), Annotations: canonJSON(md["annotations"]), Generation: acc.GetGeneration(),
+	return ViewG{Labels: canonJSON(md["labels"]), Annotations: canonJSON(md["annotations"]), Generation: acc.GetGeneration(),
 		Spec: canonJSON(m["spec"]), Status: canonJSON(m["status"])}
+}
+
+// viewAgreement counts, per field group, the pairs on which "same semantic rendering" and "same JSON document"
+// disagree (expected: none for kinds whose list/map/bytes members are all omitempty).
+func (h *H) viewAgreement(a, b runtime.Object) {
+	va, vb, ja, jb := apiGroups(a), apiGroups(b), jsonGroups(a), jsonGroups(b)
+	chk := func(g string, v1, v2, j1, j2 string) {
+		h.obs["view-pairs-compared"]++
+		if (v1 == v2) != (j1 == j2) {
+			h.obs["view-vs-json-disagreement:"+g]++
+			if h.viewExample == "" {
+				h.viewExample = fmt.Sprintf("%s: semantic %q vs %q, JSON %s vs %s", g, short(v1), short(v2), short(j1), short(j2))
+			}
+		}
+	}
+	chk("labels", va.Labels, vb.Labels, ja.Labels, jb.Labels)
+	chk("annotations", va.Annotations, vb.Annotations, ja.Annotations, jb.Annotations)
+	chk("spec", va.Spec, vb.Spec, ja.Spec, jb.Spec)
+	chk("status", va.Status, vb.Status, ja.Status, jb.Status)
 }
 
 // ---------------------------------------------------------------------------------------------------
@@ -120,6 +176,8 @@ type H struct {
 	served map[string]*Served
 	names  []string
 	obs    map[string]int
+
+	viewExample string
 }
 
 func (s *Served) decoder() runtime.Decoder {
@@ -217,11 +275,11 @@ func docMeta(doc []byte) (name, ns string) {
 
 type stepTrace struct {
 	Op       string      `json:"op"`
-	Old      *Groups     `json:"stored_api_view,omitempty"`
+	Old      *ViewG      `json:"stored_api_view,omitempty"`
 	Err1     string      `json:"before_err,omitempty"`
-	Out1     *Groups     `json:"after_strategy,omitempty"`
+	Out1     *ViewG      `json:"after_strategy_api_view,omitempty"`
 	Err2     string      `json:"store_err,omitempty"`
-	Out2     *Groups     `json:"store_answer_api_view,omitempty"`
+	Out2     *ViewG      `json:"store_answer_api_view,omitempty"`
 	ModelRej string      `json:"model_rej,omitempty"`
 	Model    interface{} `json:"model_out,omitempty"`
 }
@@ -300,7 +358,8 @@ func (h *H) eval(cs Case) *rig.Failure {
 				return fail("diff", "c20.bad-case", "stored object unreadable: "+err.Error(), nil)
 			}
 		}
-		var oldDeep, oldAPI Groups
+		var oldDeep Groups
+		var oldAPI ViewG
 		if old != nil {
 			oldDeep, oldAPI = deepGroups(old), apiGroups(old)
 			t.Old = &oldAPI
@@ -331,6 +390,9 @@ func (h *H) eval(cs Case) *rig.Failure {
 			return fail("diff", "c20.bad-case", "submitted document does not decode: "+err.Error(), nil)
 		}
 		subDeep := deepGroups(obj)
+		if old != nil {
+			h.viewAgreement(old, obj)
+		}
 		var err1 error
 		msg, panicked := rig.Recover(func() {
 			if old == nil || st.Op == "create" {
@@ -352,13 +414,41 @@ func (h *H) eval(cs Case) *rig.Failure {
 			return fail("judge", "c20.panic", fmt.Sprintf("step %d (%s): BeforeCreate/BeforeUpdate panicked: %s", i, st.Op, msg), nil)
 		}
 		t.Err1 = errClass(err1)
-		var out1Deep, out1API Groups
+		var out1Deep Groups
+		var out1API ViewG
 		if err1 == nil {
 			out1Deep, out1API = deepGroups(obj), apiGroups(obj)
 			t.Out1 = &out1API
 		}
 		if st.Op == "create" && old != nil {
 			return fail("diff", "c20.bad-case", "create against an existing object", nil)
+		}
+		// ---- L2: the endpoint's rest.Storage
+		var out2 runtime.Object
+		var err2 error
+		created := false
+		obj2, _ := s.decode(st.Submitted)
+		msg, panicked = rig.Recover(func() {
+			if st.Op == "create" {
+				out2, err2 = endpointREST.(rest.Creater).Create(ctx, obj2, rest.ValidateAllObjectFunc, &metav1.CreateOptions{})
+				created = true
+			} else {
+				out2, created, err2 = endpointREST.(rest.Updater).Update(ctx, name, rest.DefaultUpdatedObjectInfo(obj2), rest.ValidateAllObjectFunc, rest.ValidateAllObjectUpdateFunc, false, &metav1.UpdateOptions{})
+			}
+		})
+		if panicked {
+			return fail("judge", "c20.panic", fmt.Sprintf("step %d (%s): the store panicked: %s", i, st.Op, msg), nil)
+		}
+		t.Err2 = errClass(err2)
+		// ---- judge first, on what the API answered: the property is decided on the real code alone,
+		// whatever the model says
+		var out2API ViewG
+		if err2 == nil {
+			out2API = apiGroups(out2)
+			t.Out2 = &out2API
+			if f := h.judge(cs, trace, s, i, st, created, served, zeroAPI, oldAPI, out2API, subDeep, oldDeep); f != nil {
+				return f
+			}
 		}
 		// ---- model
 		var m struct {
@@ -383,23 +473,6 @@ func (h *H) eval(cs Case) *rig.Failure {
 				return fail("diff", "c20.strategy-output", fmt.Sprintf("step %d (%s on %s): after the strategy the real object is %+v, the model's is %+v", i, st.Op, s.Name, out1Deep, mo), mo)
 			}
 		}
-		// ---- L2: the endpoint's rest.Storage
-		var out2 runtime.Object
-		var err2 error
-		created := false
-		obj2, _ := s.decode(st.Submitted)
-		msg, panicked = rig.Recover(func() {
-			if st.Op == "create" {
-				out2, err2 = endpointREST.(rest.Creater).Create(ctx, obj2, rest.ValidateAllObjectFunc, &metav1.CreateOptions{})
-				created = true
-			} else {
-				out2, created, err2 = endpointREST.(rest.Updater).Update(ctx, name, rest.DefaultUpdatedObjectInfo(obj2), rest.ValidateAllObjectFunc, rest.ValidateAllObjectUpdateFunc, false, &metav1.UpdateOptions{})
-			}
-		})
-		if panicked {
-			return fail("judge", "c20.panic", fmt.Sprintf("step %d (%s): the store panicked: %s", i, st.Op, msg), nil)
-		}
-		t.Err2 = errClass(err2)
 		if (err2 == nil) != (err1 == nil) {
 			return fail("diff", "c20.store-accept", fmt.Sprintf("step %d (%s on %s): BeforeCreate/BeforeUpdate error=%q but the store's error=%q", i, st.Op, s.Name, errClass(err1), errClass(err2)), nil)
 		}
@@ -410,8 +483,6 @@ func (h *H) eval(cs Case) *rig.Failure {
 		if created != m.Created {
 			return fail("diff", "c20.created", fmt.Sprintf("step %d (%s on %s): store created=%v, model created=%v", i, st.Op, s.Name, created, m.Created), nil)
 		}
-		out2API := apiGroups(out2)
-		t.Out2 = &out2API
 		if out2API != out1API {
 			return fail("diff", "c20.store-output", fmt.Sprintf("step %d (%s on %s): the store answered %+v but the object after BeforeCreate/BeforeUpdate renders as %+v", i, st.Op, s.Name, out2API, out1API), nil)
 		}
@@ -419,45 +490,6 @@ func (h *H) eval(cs Case) *rig.Failure {
 		back := s.Main.NewFunc()
 		if err := s.Mem.Get(ctx, key, "", back, false); err != nil || apiGroups(back) != out2API {
 			return fail("diff", "c20.read-back", fmt.Sprintf("step %d: read-back differs from the answer (%v)", i, err), nil)
-		}
-		// ---- judge, on what the API shows
-		op := st.Op
-		if created {
-			op = "create"
-		}
-		var j struct {
-			Violations            []string
-			StatusAnnotationsOnly bool
-		}
-		jargs := map[string]interface{}{"op": op, "served": served, "zero": rig.Hex(zeroAPI), "out": out2API.hex()}
-		if op != "create" {
-			jargs["stored"] = oldAPI.hex()
-		}
-		if err := c.Model("C20.judge", jargs, &j); err != nil {
-			return fail("diff", "c20.model-error", err.Error(), nil)
-		}
-		if j.StatusAnnotationsOnly {
-			h.obs["status-update-changed-annotations-generation-kept"]++
-		}
-		if len(j.Violations) > 0 {
-			v := j.Violations[0]
-			class := "c20." + v
-			what := fmt.Sprintf("step %d: %s of %s (%s): %s; stored %+v, answered %+v", i, st.Op, s.Kind, s.Name, v, oldAPI, out2API)
-			if v == "generation-bumped-without-change" && (subDeep.Spec != oldDeep.Spec || subDeep.Annotations != oldDeep.Annotations) {
-				// spec and annotations render identically before and after, but the decoded Go values differ
-				// (an explicit empty list/map/bytes against an absent one): its own class
-				class = "c20.generation-bumped-on-empty-vs-absent"
-				diff := ""
-				if subDeep.Spec != oldDeep.Spec {
-					diff += fmt.Sprintf(" decoded spec %s vs stored %s;", short(subDeep.Spec), short(oldDeep.Spec))
-				}
-				if subDeep.Annotations != oldDeep.Annotations {
-					diff += fmt.Sprintf(" decoded annotations %s vs stored %s;", subDeep.Annotations, oldDeep.Annotations)
-				}
-				what = fmt.Sprintf("step %d: %s of %s (%s): generation %d -> %d although spec and annotations read the same before and after; the request spelled an empty list/map/bytes out (or the store held one):%s",
-					i, st.Op, s.Kind, s.Name, oldAPI.Generation, out2API.Generation, diff)
-			}
-			return fail("judge", class, what, j)
 		}
 	}
 	return nil
@@ -469,6 +501,54 @@ func (h *H) modelArgs(st Step, fl regFlags, zeroDeep string, old runtime.Object,
 		a["stored"] = oldDeep.hex()
 	}
 	return a
+}
+
+// judge evaluates the property's clauses (KG.Spec.Strategy, through the driver) on one accepted request as the
+// API showed it: the stored object before, the store's answer after.
+func (h *H) judge(cs Case, trace []stepTrace, s *Served, i int, st Step, created, served bool, zeroAPI string, oldAPI, out2API ViewG, subDeep, oldDeep Groups) *rig.Failure {
+	c := h.c
+	fail := func(kind, class, what string, model interface{}) *rig.Failure {
+		return &rig.Failure{Kind: kind, Class: class, What: what, Case: cs, Impl: trace, Model: model}
+	}
+	op := st.Op
+	if created {
+		op = "create"
+	}
+	var j struct {
+		Violations            []string
+		StatusAnnotationsOnly bool
+	}
+	jargs := map[string]interface{}{"op": op, "served": served, "zero": rig.Hex(zeroAPI), "out": out2API.hex()}
+	if op != "create" {
+		jargs["stored"] = oldAPI.hex()
+	}
+	if err := c.Model("C20.judge", jargs, &j); err != nil {
+		return fail("diff", "c20.model-error", err.Error(), nil)
+	}
+	if j.StatusAnnotationsOnly {
+		h.obs["status-update-changed-annotations-generation-kept"]++
+	}
+	if len(j.Violations) > 0 {
+		v := j.Violations[0]
+		class := "c20." + v
+		what := fmt.Sprintf("step %d: %s of %s (%s): %s; stored %+v, answered %+v", i, st.Op, s.Kind, s.Name, v, oldAPI, out2API)
+		if v == "generation-bumped-without-change" && (subDeep.Spec != oldDeep.Spec || subDeep.Annotations != oldDeep.Annotations) {
+			// spec and annotations read the same before and after, but the decoded Go values differ
+			// (a spelled-out empty list/map/bytes against a missing one): findings/C20-empty-vs-absent-bumps-generation
+			class = "c20.generation-bumped-on-empty-vs-absent"
+			diff := ""
+			if subDeep.Spec != oldDeep.Spec {
+				diff += fmt.Sprintf(" decoded spec %s vs stored %s;", short(subDeep.Spec), short(oldDeep.Spec))
+			}
+			if subDeep.Annotations != oldDeep.Annotations {
+				diff += fmt.Sprintf(" decoded annotations %s vs stored %s;", subDeep.Annotations, oldDeep.Annotations)
+			}
+			what = fmt.Sprintf("step %d: %s of %s (%s): generation %d -> %d although spec and annotations read the same before and after; the request spelled an empty list/map/bytes out (or the store held one):%s",
+				i, st.Op, s.Kind, s.Name, oldAPI.Generation, out2API.Generation, diff)
+		}
+		return fail("judge", class, what, j)
+	}
+	return nil
 }
 
 func (s *Served) StatusREST() rest.Storage {
@@ -996,6 +1076,9 @@ func main() {
 		}
 		if nobs := h.obs["status-update-changed-annotations-generation-kept"]; nobs > 0 {
 			c.Note("observation (not a violation under the reading chosen, see notes/C20.md): %d accepted status-subresource updates changed the annotations and kept the generation — annotations can be changed through /status without a generation bump", nobs)
+		}
+		if h.viewExample != "" {
+			c.Note("the semantic rendering used as the API's view and the literal JSON documents disagree on whether some pairs read the same (a list/map/bytes member without omitempty?), first: %s", h.viewExample)
 		}
 		for k, v := range failedClasses {
 			c.SetExtra("failing-cases:"+k, v)
